@@ -1,7 +1,7 @@
 """Per-property plans: which MC modules, drivers, demand codes and extra legs decide a property."""
 
 NOT_APPLICABLE = {}
-HOOK_COMMITS = []
+HOOK_COMMITS = ['244a30c']
 
 COMMON_ASSUMPTIONS = [
     'TLC 1.8 evaluates the specification faithfully; the Json community module parses the ndjson traces '
@@ -42,6 +42,19 @@ def race_leg(ctx):
             reports.append(txt[:4000])
     bads = [('C19.race', [{'op': 'r.reset', 'goroutines': 0, 'procs': 0, 'yield': False, 'st': 1, 'race_report': r}], 'race detector report') for r in reports[:3]]
     return ({'kind': 'mbt', 'info': {'race_detector_reports': len(reports), 'built_with': 'go build -race -tags verif'}}, bads)
+
+
+def gen_c20_vectors(ctx):
+    """C20, spec -> code: TLC enumerates the test-case programs (spec/mc/MBT_C20.tla) and writes them
+    as ndjson vectors; the c20 driver instantiates and runs each one on the real helpers."""
+    import os as _o
+    vec = _o.path.join(ctx['scratch'], 'c20-vectors.ndjson')
+    r = vf.run_mc('MBT_C20', ctx['scratch'], workers=4, env={'VEC_FILE': vec, 'MBT_TIER': ctx['tier']})
+    n = vf.count_lines(vec)
+    vf.log('[mbt] MBT_C20: TLC generated %d programs' % n)
+    ctx['env']['VERIF_VEC'] = vec
+    return {'states': r['distinct'], 'transitions': r['generated'],
+            'info': {'module': 'MBT_C20', 'programs_generated_by_tlc': n, 'laws_checked_on_states': r['distinct']}}
 
 
 PLANS = {
@@ -224,5 +237,15 @@ PLANS = {
                 'distinctness of all IDs of the run and both values of each of the 122 free bits; harness built with -race, reports raised as C19.race; Apalache proves the mask lemma for all 2^126 draw pairs',
         'assumptions': COMMON_ASSUMPTIONS + ['the Go memory model is not modelled: the specification decides the lock protocol from hook traces; the race detector is an additional sensor',
                                              'schedules are those the Go scheduler produced in this run (GOMAXPROCS 1..16, yields in the critical section); they are not enumerated'],
+    },
+    'C20': {
+        'pre': [gen_c20_vectors],
+        'drivers': [{'name': 'c20', 'shards': 8, 'per': 20000}],
+        'codes': ['C20.'],
+        'exhaustive': {'quick': True, 'thorough': True},
+        'rule': 'spec -> code: TLC enumerates every single test case (3 constraints x 4 before x 4 after x 5 behaviours x 11 expectations, minus 2 uninstantiable) x 2 directions x 3 encodings x '
+                'value/pointer receivers, every ordered pair over a reduced alphabet (108^2), empty lists, mixed-direction lists and types lacking the interface; the harness instantiates each as a scripted type '
+                'and case list on the real helpers with a recording TestingT; code -> spec: the recorded verdicts are judged by TLC against TestHelper!CaseFails; plus seeded random lists of 3-8 cases',
+        'assumptions': COMMON_ASSUMPTIONS + ['a helper "reports a failure" iff the recording TestingT saw Errorf or FailNow; predicates are instantiated to hold / not hold for the error text the scripted behaviour produces'],
     },
 }
